@@ -273,6 +273,8 @@ class Ctx:
         self.broken = []          # obligations / tie items that no longer check
         self.model_traces = 0
         self.coverage_extra = {}
+        self.first_violation_at = None
+        self.grace_after_violation = float(os.environ.get("VERIF_GRACE", "90" if tier == "quick" else "900"))
         self.assumptions = []
         self.obligations = 0
         self.discharged = 0
@@ -286,6 +288,9 @@ class Ctx:
         self.dist[key] = self.dist.get(key, 0) + n
 
     def case(self, canon_key, nontrivial=True, sample=None):
+        if self.first_violation_at is not None and time.time() - self.first_violation_at > self.grace_after_violation:
+            self.coverage_extra["stopped_early"] = "a violation had been on record for %ds" % self.grace_after_violation
+            raise StopEarly()
         self.evaluations += 1
         if nontrivial:
             self.distinct.add(hashlib.sha1(repr(canon_key).encode()).digest()[:8])
@@ -315,6 +320,8 @@ class Ctx:
             return
         path = self.write_replay(kind, signature, case, observed, expected)
         self.violations.append((signature, path, what))
+        if self.first_violation_at is None:
+            self.first_violation_at = time.time()
 
     def tie_broken(self, what, detail=""):
         n = sum(1 for w, _ in self.broken if w == what)
@@ -397,6 +404,11 @@ def gen_fact(module, name, default=True):
 
 class Hang(BaseException):
     """raised in the main thread by time_limit(): the guarded operation did not return in time"""
+
+
+class StopEarly(BaseException):
+    """raised by Ctx.case() once a violation has been on record for the grace period: the verdict is settled, and a broken tree
+    can make every further case slow (operations that hang until their time limit); `check` ends the harness and reports"""
 
 
 class time_limit:
